@@ -2,7 +2,9 @@
 """Print the prompt given to a seeding sub-agent for one property (only the property text and its worktree)."""
 import json, sys
 pid, wt = sys.argv[1], sys.argv[2]
+rnd2 = len(sys.argv) > 3 and sys.argv[3] == "2"
 p = [json.loads(l) for l in open("/verif/properties.jsonl") if json.loads(l)["id"] == pid][0]
+extra = ("  4. this is a SECOND round: the first, most obvious place where one would break this property has already been used by someone else. Pick less obvious sites: a helper shared with other features, state carried from one call / file / statement to the next, a rarely taken branch, an interaction between two modules or between the library and the command line tools, or an input at an unusual but valid boundary. The two changes must be in different functions (preferably different files) from each other.\n" if rnd2 else "")
 print(f"""You are helping test a verification framework by playing the role of a developer who introduces a subtle regression.
 
 Project: craigthomas/CoCoAssembler (pure-Python Motorola 6809 assembler + CoCo cassette/disk image utility). You have your own scratch git worktree of it at {wt} . Work ONLY inside {wt} (do not touch /repo, do not read or write anything under /verif). Python to use: /venv/bin/python . The project's test suite: `cd {wt} && /venv/bin/python -m pytest -q -p no:cacheprovider` (about 490 tests pass; exactly 4 tests in test/test_integration.py fail before any change because they call assertEquals - ignore those 4).
@@ -17,6 +19,7 @@ Your task: make TWO different, independent changes (two separate patches, each a
   1. the code still imports/runs and the existing test suite still passes exactly as before (same tests pass);
   2. the property above is violated for SOME inputs, but only under specific circumstances - a particular value range, operand form, distance, sequence of operations, unusual-but-valid input, or two cooperating code sites that each look fine alone. It must NOT be something ordinary use would expose at once (e.g. do not break every instruction);
   3. the change looks like a plausible refactoring slip, off-by-one, wrong threshold, dropped case or "optimisation" a real developer could make.
+{extra}
 
 For each change produce, in the directory {wt}/_seed/<n>/ (n = 1, 2):
   - patch.diff : `git diff` of the change against the unmodified worktree (must apply with `git apply` to a clean checkout);
